@@ -38,7 +38,9 @@ BaseG == [tsmap |-> <<>>, css |-> <<>>, regions |-> <<>>, cues |-> <<>>]
 
 \* the region reference is combined with every cue-setting subset (a setting may not hide the region)
 TruthsH == {[tsmap |-> tm, css |-> cs, regions |-> rg, cues |-> <<[SimpleCue(0, 1500) EXCEPT !.region = rr, !.set = st]>>] :
-              tm \in {<<>>, <<[local |-> 0, mpegts |-> 900000]>>, <<[local |-> 3723004, mpegts |-> 123456789]>>},
+              \* 2147483647 stands for 8589934591 = 2^33 - 1, the largest MPEG-TS time stamp (TLC's integers are 32 bits
+              \* wide; the harness writes and reads the real value)
+              tm \in {<<>>, <<[local |-> 0, mpegts |-> 900000]>>, <<[local |-> 3723004, mpegts |-> 123456789]>>, <<[local |-> 1000, mpegts |-> 2147483647]>>},
               cs \in {<<>>, <<1>>, <<1, 2>>}, rg \in {<<>>, <<R1>>, <<R1, R2>>, <<R2>>}, rr \in {0, 1, 2}, st \in Sets}
 TruthsHOK == {t \in TruthsH : t.cues[1].region = 0 \/ \E i \in DOMAIN t.regions : t.regions[i].id = t.cues[1].region}
 
@@ -54,7 +56,9 @@ TruthsP == {[BaseG EXCEPT !.cues = <<[SimpleCue(0, 1000) EXCEPT !.id = i1, !.not
 \* N: nesting - tags of the same name inside one another (class spans in class spans, i in b in i), runs that leave
 \* the inner span only, up to three runs on a line
 Tc3 == [name |-> "c", cls |-> <<3>>, ann |-> 0]
-StacksN == {<<>>, <<Tc1>>, <<Tc1, Tc2>>, <<Tc1, Tc2, Tc3>>, <<Ti>>, <<Ti, Tb>>, <<Ti, Tb, Ti>>}
+\* ... and tags of the same name that differ in their annotation only (<lang en> next to <lang fr>)
+Tl2 == [name |-> "lang", cls |-> <<>>, ann |-> 2]
+StacksN == {<<>>, <<Tc1>>, <<Tc1, Tc2>>, <<Tc1, Tc2, Tc3>>, <<Ti>>, <<Ti, Tb>>, <<Ti, Tb, Ti>>, <<Tl>>, <<Tl2>>, <<Tc1, Tl2>>}
 RunSeqsN == {rs \in {<<Run1(1, s1, 0), Run1(2, s2, 0)>> : s1 \in StacksN, s2 \in StacksN} : rs[1].tags # rs[2].tags}
             \cup {rs \in {<<Run1(1, s1, 0), Run1(2, s2, 0), Run1(3, s3, 0)>> : s1 \in StacksN, s2 \in StacksN, s3 \in StacksN} :
                      rs[1].tags # rs[2].tags /\ rs[2].tags # rs[3].tags}
